@@ -94,4 +94,62 @@ def run : Docs → List Msg → Docs × List Out
     | (_, .crash) => (d, [.crash])
     | (d', o) => let (d'', os) := run d' ms; (d'', o :: os)
 
+/-! ## the session layer: which documents the editor holds open, and the files on disk
+
+`on_did_open` records the document in `opened_files`, `on_did_close` removes it (the text stays in the
+store: "the client ends its maintenance of the file, it does not delete it").
+`on_did_change_watched_files` handles one `FileEvent` at a time: events about documents the editor holds
+open and about non-file URIs are skipped; CREATED / CHANGED re-reads the file (a file that is gone by then
+counts as DELETED, anything that is not a readable regular file is ignored); DELETED removes the document
+from the store.  The state of the file on disk at that moment is a parameter of the event.  `loaded` is
+the side effect of the first contact with a package: its files are read into the store without being
+opened. -/
+
+structure Sess where
+  docs : Docs
+  /-- `opened_files` (file URIs; a non-file document is never recorded) -/
+  opened : List Nat
+deriving Repr, DecidableEq, Inhabited
+
+inductive Disk where
+  | absent
+  | regular (text : List Char)
+  /-- a directory, a FIFO, no permission, not UTF-8 … -/
+  | unreadable
+deriving Repr, DecidableEq, Inhabited
+
+inductive Ev where
+  | msg (m : Msg)
+  /-- one `FileEvent`: `deleted` = its type is DELETED (else CREATED or CHANGED) -/
+  | watched (uri : Uri) (deleted : Bool) (disk : Disk)
+  | loaded (u : Nat) (text : List Char)
+deriving Repr, DecidableEq, Inhabited
+
+def sstep (s : Sess) : Ev → Sess × Out
+  | .msg m =>
+    let r := step s.docs m
+    let opened := match m with
+      | .didOpen (.file u) text => if u8sum text > maxFileLen then s.opened else u :: s.opened.filter (fun x => x != u)
+      | .didClose (.file u) => s.opened.filter (fun x => x != u)
+      | _ => s.opened
+    ({ docs := r.1, opened := opened }, r.2)
+  | .watched (.file u) deleted disk =>
+    if s.opened.contains u then (s, .none)
+    else if deleted then ({ s with docs := remove s.docs u }, .none)
+    else
+      match disk with
+      | .regular text => ({ s with docs := set s.docs u (stripCR text) }, .none)
+      | .absent => ({ s with docs := remove s.docs u }, .none)
+      | .unreadable => (s, .none)
+  | .watched (.other _) _ _ => (s, .none)
+  | .loaded u text => ({ s with docs := set s.docs u (stripCR text) }, .none)
+
+/-- run a session; stops at a crash -/
+def srun : Sess → List Ev → Sess × List Out
+  | s, [] => (s, [])
+  | s, e :: es =>
+    match sstep s e with
+    | (_, .crash) => (s, [.crash])
+    | (s', o) => let (s'', os) := srun s' es; (s'', o :: os)
+
 end Glas.Server
